@@ -2649,6 +2649,15 @@ func (c StreamContext) Data(converterName string) ([]index.Data, error) {
 		c.v.mgr.jobs <- func() {
 			converter, ok := c.v.mgr.converters[converterName]
 			if ok {
+				// the view may be older than an import that changed this stream: what
+				// was cached just now is then the output for data that is not current
+				if !c.v.mgr.isNewestVersion(c.Stream()) {
+					ids := bitmask.LongBitmask{}
+					ids.Set(uint(c.Stream().ID()))
+					invalidated := converter.InvalidateChangedStreams(&ids)
+					c.v.mgr.streamsToConvert[converterName].Or(invalidated)
+					c.v.mgr.startConverterJobIfNeeded()
+				}
 				c.v.mgr.event(Event{
 					Type:      "converterCompleted",
 					Converter: converter.Statistics(),
@@ -2657,6 +2666,17 @@ func (c StreamContext) Data(converterName string) ([]index.Data, error) {
 		}
 	}
 	return data, err
+}
+
+// isNewestVersion tells whether the stream comes from the index file that
+// currently serves its id.
+func (mgr *Manager) isNewestVersion(s *index.Stream) bool {
+	for i := len(mgr.indexes) - 1; i >= 0; i-- {
+		if cur, err := mgr.indexes[i].StreamByID(s.ID()); err == nil && cur != nil {
+			return mgr.indexes[i] == s.Reader()
+		}
+	}
+	return false
 }
 
 func (c StreamContext) HasTag(name string) (bool, error) {
